@@ -5,7 +5,7 @@
     instance on every run. *)
 From Coq Require Import NArith ZArith QArith Qabs List Bool.
 From SV Require Import Bin.Struct Fmt.DmxCodes Fmt.DmxCodesProofs Fmt.DmxBin Fmt.DmxBinProofs Fmt.DmxKv1 Fmt.DmxKv1Proofs
-  Fmt.DmxScalar Fmt.DmxScalarProofs Text.Str Text.Escape Text.Tokenizer Text.TokGen Fmt.DmxKv2 Fmt.DmxKv2Proofs Fmt.DmxKv2Nested Fmt.DmxKv2NestedProofs Fmt.DmxKv2Inst Gen.DmxCodes_gen.
+  Fmt.DmxScalar Fmt.DmxScalarProofs Fmt.DmxTyped Fmt.DmxTypedProofs Text.Str Text.Escape Text.Tokenizer Text.TokGen Fmt.DmxKv2 Fmt.DmxKv2Proofs Fmt.DmxKv2Nested Fmt.DmxKv2NestedProofs Fmt.DmxKv2Inst Gen.DmxCodes_gen.
 Import ListNotations.
 
 (** The premises of the theorems below, for the configuration generated from today's source.  The check proves
@@ -150,6 +150,42 @@ Theorem scalar_matrix_unpadded_read_refuted :
   (mat_cells_read_where_written bad_mat_scalar = false) /\
   mat_unpack (sc_mat_unpack bad_mat_scalar) (mat_pack (sc_mat_pack bad_mat_scalar) [1;2;3;4;5;6;7;8;9]%N) <> [1;2;3;4;5;6;7;8;9]%N.
 Proof. exact matrix_unpadded_read_refuted. Qed.
+
+(** * Binary DMX with typed values *)
+
+(** Packing every fixed-width value of a typed document ([lower_doc]: TYPE_CONVERT[t, BINARY] per item, as
+    [attr.iter_binary()] does) and unpacking ([lift_doc]: TYPE_CONVERT[BINARY, t]) gives the document back, and every
+    packed item has exactly the size the SIZES table promises the reader ([sizes_match_formats]). *)
+Theorem typed_values_roundtrip :
+  forall (fmul fdiv : Q -> Q -> Q) (anorm : N -> N) (scfg : scalarcfg) (cfg : dmxcfg),
+    scalar_cfg_ok scfg = true -> sizes_match_formats scfg cfg = true ->
+    std_model_on_ticks fmul fdiv (sc_time_div scfg) -> (forall b, (b < ANGLE_360)%N -> anorm b = b) ->
+    forall td, tdoc_rep fdiv scfg td ->
+    exists d, lower_doc fmul scfg td = Some d /\ lift_doc fdiv anorm scfg d = Some td /\ doc_sized cfg d.
+Proof. exact typed_lift_lower. Qed.
+
+(** The binary round trip with values instead of wire bytes: export the packed document in any version that can
+    express it, parse, unpack — the typed document comes back (integers, binary32 patterns, booleans, tick-exact
+    times, colours, vectors, angles in [0, 360), quaternions, matrices; strings, blobs and references as before). *)
+Theorem dmx_bin_typed_roundtrip :
+  forall (fmul fdiv : Q -> Q -> Q) (anorm : N -> N) (scfg : scalarcfg) (cfg : dmxcfg),
+    scalar_cfg_ok scfg = true -> sizes_match_formats scfg cfg = true ->
+    std_model_on_ticks fmul fdiv (sc_time_div scfg) -> (forall b, (b < ANGLE_360)%N -> anorm b = b) ->
+    forall (cenc : enc -> DmxBin.str -> bytes) (cdec : enc -> bytes -> option DmxBin.str) (v : N) (td : tdoc) (d : doc),
+    bin_cfg_ok cfg = true -> tdoc_rep fdiv scfg td -> lower_doc fmul scfg td = Some d -> expressible cenc cdec cfg v d ->
+    match parse_bin cdec cfg v (export_bin cenc cfg v d) with Some d' => lift_doc fdiv anorm scfg d' | None => None end = Some td.
+Proof. exact dmx_bin_typed_roundtrip_gen. Qed.
+
+Theorem typed_premises_satisfiable :
+  tdoc_rep fdiv64 pinned_scalar ex_tdoc /\
+  match lower_doc fmul64 pinned_scalar ex_tdoc with
+  | Some [e] => match nth 3 (eattrs e) {| aname := []; adata := VBin (Array []) |} with
+                | {| adata := VFix TMatrix (Scalar b) |} => length b = 64%nat
+                | _ => False
+                end
+  | _ => False
+  end.
+Proof. exact typed_example. Qed.
 
 (** * KeyValues2 *)
 
